@@ -1,3 +1,153 @@
-import DosModel.Model.Util
--- stub: no model driver for this property yet
-def main : IO Unit := Dos.lineLoop (fun _ => "unimplemented")
+import DosModel.Model.Codec
+/-
+Line-protocol driver for C11: maps every case line of go/props/c11 to the output the MODEL
+(`Model/Codec.lean` over `Model/Bn256.lean`) predicts for the real code.
+-/
+open Dos Dos.Bn256 Dos.Codec
+
+namespace Dos.DrvC11
+
+/-- the harness builds scalars with `Scalar().SetBytes(k mod 2^256)`, which reduces mod r -/
+def sc (k : Nat) : Nat := (k % 2 ^ 256) % r
+
+def showDec (m : α → Bytes) (o : Out α) : String := showOut (fun v => toHex (m v)) o
+
+def b2s (b : Bool) : String := if b then "1" else "0"
+
+def g1of (k : Nat) : G1 := G1.smul (sc k) g1gen
+def g2of (k : Nat) : G2 := G2.smul (sc k) g2gen
+
+def elemLine1 (P : G1) : String :=
+  let enc := marshalG1 P
+  let rt := match unmarshalG1 enc with
+    | .ok Q => Q == P && marshalG1 Q == enc
+    | _ => false
+  s!"ok {toHex enc} rt={b2s rt}"
+
+def elemLine2 (P : G2) : String :=
+  let enc := marshalG2 P
+  let rt := match unmarshalG2 enc with
+    | .ok Q => Q == P && marshalG2 Q == enc
+    | _ => false
+  s!"ok {toHex enc} rt={b2s rt}"
+
+def strmLine (enc tail : Bytes) (res : Nat × String) : String :=
+  let total := enc.length + tail.length
+  s!"wrote={enc.length} n={res.1} {res.2} left={total - res.1}"
+
+def step (line : String) : String :=
+  match words line with
+  | ["g1dec", hs] => match ofHex hs with
+    | some b => showDec marshalG1 (unmarshalG1 b)
+    | none => "bad-op"
+  | ["g2dec", hs] => match ofHex hs with
+    | some b => showDec marshalG2 (unmarshalG2 b)
+    | none => "bad-op"
+  | ["gtdec", hs] => match ofHex hs with
+    | some b => showDec marshalGT (unmarshalGT b)
+    | none => "bad-op"
+  | ["scdec", hs] => match ofHex hs with
+    | some b => match unmarshalScalar b with
+      | .ok v => showOut toHex (marshalScalar v)
+      | .err e => "err " ++ errName e
+      | .panic s => "panic " ++ s
+    | none => "bad-op"
+  | ["scenc", ks] => match ks.toNat? with
+    | some k =>
+      let s := sc k
+      match marshalScalar s with
+      | .ok enc =>
+        let rt := match unmarshalScalar enc with
+          | .ok v => v == s
+          | _ => false
+        s!"ok {toHex enc} rt={b2s rt}"
+      | .err e => "err " ++ errName e
+      | .panic st => "panic " ++ st
+    | none => "bad-op"
+  -- the repaired decoders do not look at the receiver: same answer as a fresh decode
+  | ["g1into", _, hs] => match ofHex hs with
+    | some b => showDec marshalG1 (unmarshalG1 b)
+    | none => "bad-op"
+  | ["g2into", _, hs] => match ofHex hs with
+    | some b => showDec marshalG2 (unmarshalG2 b)
+    | none => "bad-op"
+  | ["gtinto", _, hs] => match ofHex hs with
+    | some b => showDec marshalGT (unmarshalGT b)
+    | none => "bad-op"
+  | ["g1mul", ks] => match ks.toNat? with
+    | some k => elemLine1 (g1of k)
+    | none => "bad-op"
+  | ["g2mul", ks] => match ks.toNat? with
+    | some k => elemLine2 (g2of k)
+    | none => "bad-op"
+  | ["g1add", a, b] => match a.toNat?, b.toNat? with
+    | some a, some b => elemLine1 (G1.add (g1of a) (g1of b))
+    | _, _ => "bad-op"
+  | ["g1sub", a, b] => match a.toNat?, b.toNat? with
+    | some a, some b => elemLine1 (G1.add (g1of a) (G1.neg (g1of b)))
+    | _, _ => "bad-op"
+  | ["g1neg", a] => match a.toNat? with
+    | some a => elemLine1 (G1.neg (g1of a))
+    | none => "bad-op"
+  | ["g2add", a, b] => match a.toNat?, b.toNat? with
+    | some a, some b => elemLine2 (G2.add (g2of a) (g2of b))
+    | _, _ => "bad-op"
+  | ["g2sub", a, b] => match a.toNat?, b.toNat? with
+    | some a, some b => elemLine2 (G2.add (g2of a) (G2.neg (g2of b)))
+    | _, _ => "bad-op"
+  | ["g2neg", a] => match a.toNat? with
+    | some a => elemLine2 (G2.neg (g2of a))
+    | none => "bad-op"
+  | ["g1eq", a, b, c, d] => match a.toNat?, b.toNat?, c.toNat?, d.toNat? with
+    | some a, some b, some c, some d =>
+      let P := G1.add (g1of a) (g1of b)
+      let Q := G1.add (g1of c) (g1of d)
+      s!"eq={b2s (P == Q)} enc={b2s (marshalG1 P == marshalG1 Q)}"
+    | _, _, _, _ => "bad-op"
+  | ["g2eq", a, b, c, d] => match a.toNat?, b.toNat?, c.toNat?, d.toNat? with
+    | some a, some b, some c, some d =>
+      let P := G2.add (g2of a) (g2of b)
+      let Q := G2.add (g2of c) (g2of d)
+      s!"eq={b2s (P == Q)} enc={b2s (marshalG2 P == marshalG2 Q)}"
+    | _, _, _, _ => "bad-op"
+  | ["g1strm", ks, ts] => match ks.toNat?, ofHex ts with
+    | some k, some tail =>
+      let enc := marshalG1 (g1of k)
+      let (n, o) := unmarshalFrom 64 unmarshalG1 (enc ++ tail)
+      strmLine enc tail (n, showDec marshalG1 o)
+    | _, _ => "bad-op"
+  | ["g2strm", ks, ts] => match ks.toNat?, ofHex ts with
+    | some k, some tail =>
+      let enc := marshalG2 (g2of k)
+      let (n, o) := unmarshalFromG2 (enc ++ tail)
+      strmLine enc tail (n, showDec marshalG2 o)
+    | _, _ => "bad-op"
+  | ["g1from", hs] => match ofHex hs with
+    | some b => let (n, o) := unmarshalFrom 64 unmarshalG1 b; s!"n={n} {showDec marshalG1 o}"
+    | none => "bad-op"
+  | ["g2from", hs] => match ofHex hs with
+    | some b => let (n, o) := unmarshalFromG2 b; s!"n={n} {showDec marshalG2 o}"
+    | none => "bad-op"
+  | ["gtfrom", hs] => match ofHex hs with
+    | some b => let (n, o) := unmarshalFrom 384 unmarshalGT b; s!"n={n} {showDec marshalGT o}"
+    | none => "bad-op"
+  | _ => "bad-op"
+
+end Dos.DrvC11
+
+/-- all case lines are read first and evaluated as parallel tasks (a scalar multiplication of the
+affine model costs ≈ 75 ms); output order = input order -/
+partial def readLines (h : IO.FS.Stream) (acc : Array String) : IO (Array String) := do
+  let line ← h.getLine
+  if line.isEmpty then return acc
+  let l := (line.trimAsciiEnd).toString
+  if l.isEmpty then readLines h acc else readLines h (acc.push l)
+
+def main : IO Unit := do
+  let stdin ← IO.getStdin
+  let lines ← readLines stdin #[]
+  let tasks := lines.map (fun l => Task.spawn (fun _ => Dos.DrvC11.step l))
+  let out ← IO.getStdout
+  for t in tasks do
+    out.putStrLn t.get
+  out.flush
